@@ -200,6 +200,8 @@ func checkC15(c *Ctx) {
 	c.Rule("R15.2", "conversions cancel: Sugar +k, Desugar −k, every other derive method leaves callerSkip unchanged", 8)
 	c.Rule("R15.3", "Logger.check is called only by exported Logger methods", 6)
 	c.Rule("R15.4", "one capture shared by caller and stack; attached under exactly addCaller / addStack; slog: stack iff record.Level >= addStackAt, caller from record.PC", 3)
+	c.Rule("R15.7", "Config: caller and stack annotations are installed exactly as configured (DisableStacktrace wins over Development)", 1)
+	c15ConfigAnnotations(c, "R15.7")
 	c.Rule("R15.5", "whole stack: growth loop re-captures with the same skip while full; only the final frame is dropped", 3)
 
 	zp := ZapPath
@@ -900,6 +902,18 @@ func c15Attach(c *Ctx) {
 					addCallerGuard = true
 				}
 			}
+			// all of the frame is carried over (a caller without its Function is not the caller zap's own loggers report)
+			callerFields := map[string]bool{}
+			for _, rf := range Region(h) {
+				AllInstrs(rf, func(i ssa.Instruction) {
+					if st, ok := i.(*ssa.Store); ok {
+						if fa, ok := st.Addr.(*ssa.FieldAddr); ok && TypeName(deref(fa.X.Type())) == "zapcore.EntryCaller" {
+							callerFields[fieldName(fa.X.Type(), fa.Field)] = true
+						}
+					}
+				})
+			}
+			c.Check(callerFields["PC"] && callerFields["File"] && callerFields["Line"] && callerFields["Function"] && callerFields["Defined"], "R15.4", h.String(), "caller-complete", cs.Pos(), "the caller carries Defined, PC, File, Line and Function of the resolved frame (set: %v)", callerFields)
 			c.Check(addCallerGuard && fromPC && frames, "R15.4", h.String(), "caller-from-record-pc", cs.Pos(), "the caller is resolved with runtime.CallersFrames from the PC slog recorded, under addCaller (guards %v)", ga)
 		}
 	}
@@ -978,4 +992,110 @@ func c15Whole(c *Ctx) {
 		}
 		c.Check(ok, "R15.5", fs.String(), "drops-only-last", fs.Pos(), "every frame is formatted while more frames follow; only the final (runtime) frame is dropped")
 	}
+}
+
+// c15ConfigAnnotations: Config.buildOptions, evaluated for each combination of Development, DisableCaller and
+// DisableStacktrace: AddCaller is installed exactly when callers are not disabled, AddStacktrace exactly when stack
+// traces are not disabled - at WarnLevel in development, ErrorLevel otherwise - and Development() exactly in
+// development.
+func c15ConfigAnnotations(c *Ctx, rule string) {
+	fn := c.Method(ZapPath, "Config", "buildOptions")
+	if !c.Anchor(rule, "zap.Config.buildOptions", fn != nil) {
+		return
+	}
+	rn := fn.Params[0].Name()
+	warn, _ := c.ConstVal(CorePath, "WarnLevel")
+	errl, _ := c.ConstVal(CorePath, "ErrorLevel")
+	var bad []string
+	n := 0
+	for dev := int64(0); dev <= 1; dev++ {
+		for dc := int64(0); dc <= 1; dc++ {
+			for ds := int64(0); ds <= 1; ds++ {
+				d0, c0, s0 := dev, dc, ds
+				seqs, trunc := ConcPaths(fn, ConcCfg{
+					Prune: true,
+					Conc: func(d string) (int64, bool) {
+						switch d {
+						case rn + ".Development":
+							return d0, true
+						case rn + ".DisableCaller":
+							return c0, true
+						case rn + ".DisableStacktrace":
+							return s0, true
+						}
+						return 0, false
+					},
+					Inline: func(h *ssa.Function) bool {
+						return h.Name() != "AddCaller" && h.Name() != "AddStacktrace" && h.Name() != "Development" && h.Name() != "Fields" && h.Name() != "WrapCore" && h.Name() != "ErrorOutput"
+					},
+					Event: func(in ssa.Instruction, st *ConcState) string {
+						x, ok := in.(*ssa.Call)
+						if !ok {
+							return ""
+						}
+						switch {
+						case IsCallTo(x, ZapPath+".AddCaller"):
+							return "caller"
+						case IsCallTo(x, ZapPath+".Development"):
+							return "development"
+						case IsCallTo(x, ZapPath+".AddStacktrace"):
+							a := x.Call.Args[0]
+							for k := 0; k < 8; k++ {
+								if mi, isMI := a.(*ssa.MakeInterface); isMI {
+									a = mi.X
+									continue
+								}
+								if nx := st.Step(a); nx != nil {
+									a = nx
+									continue
+								}
+								break
+							}
+							if k, known := st.Int(a); known {
+								return "stack(" + itoa(int(k)) + ")"
+							}
+							return "stack(?" + st.Desc(x.Call.Args[0]) + ")"
+						}
+						return ""
+					},
+				})
+				tag := "Development=" + itoa(int(d0)) + " DisableCaller=" + itoa(int(c0)) + " DisableStacktrace=" + itoa(int(s0)) + ": "
+				if trunc || len(seqs) == 0 {
+					c.Und(rule, fn.String(), "annotations-as-configured", fn.Pos(), "path exploration incomplete (%s)", tag)
+					return
+				}
+				want := map[string]bool{}
+				if c0 == 0 {
+					want["caller"] = true
+				}
+				if d0 == 1 {
+					want["development"] = true
+				}
+				if s0 == 0 {
+					lv := errl
+					if d0 == 1 {
+						lv = warn
+					}
+					want["stack("+itoa(int(lv))+")"] = true
+				}
+				for _, sq := range seqs {
+					n++
+					got := map[string]bool{}
+					for _, t := range strings.Split(sq, " ; ") {
+						if t != "" {
+							got[t] = true
+						}
+					}
+					ok := len(got) == len(want)
+					for w := range want {
+						ok = ok && got[w]
+					}
+					if !ok {
+						bad = append(bad, tag+sq)
+					}
+				}
+			}
+		}
+	}
+	c.Check(len(bad) == 0 && n >= 8, rule, fn.String(), "annotations-as-configured", fn.Pos(), "for each of the 8 combinations of Development / DisableCaller / DisableStacktrace: AddCaller iff callers are not disabled, AddStacktrace iff stack traces are not disabled (WarnLevel in development, ErrorLevel otherwise), Development() iff development: %v", bad)
 }
